@@ -433,6 +433,11 @@ def pty_stage(ctx, violations):
         (["reg", "   ", "", "print r1"], [UP, ENTER, UP, UP, ENTER, UP, UP, UP, UP, ENTER]),
         (["", " "], [UP, ENTER, ch("r"), ch("e"), ch("g"), ENTER]),
     ]
+    # lines whose length brings the drawn cursor column (prompt + cursor) to the edge of 16 bits: recalled from the history
+    # file, walked over with Left / Right, submitted (an unknown command: harmless), then `exit`
+    long_sessions = [(["a" * n], ks) for n in (65528, 65529, 65530) for ks in ([UP, ENTER], [UP, LEFT, LEFT, RIGHT, ENTER], [UP, ch("b"), ENTER])]
+    if ctx.tier == "quick":
+        long_sessions = [long_sessions[3]]      # 65,529 characters + Up (the extracted model is quadratic in the line length: ~30 s per such session)
     if ctx.tier != "quick":
         import random as _r
         rnd = _r.Random(ctx.seed + 9)
@@ -440,15 +445,17 @@ def pty_stage(ctx, violations):
             hist = [random_text(rnd, True).replace("\t", " ") for _ in range(rnd.choice([0, 1, 2, 3]))]
             keys = [rnd.choice([ch(rnd.choice("ab 1+é😀;")), BACKSPACE, DELETE, LEFT, RIGHT, CTRL_LEFT, CTRL_RIGHT, UP, DOWN, ENTER]) for _ in range(rnd.randrange(3, 18))]
             sessions.append((hist, keys))
+    tails = [clear + E + [ENTER]] * len(sessions) + [E + [ENTER]] * len(long_sessions)        # the long lines end with Enter: nothing to clear
+    sessions = sessions + long_sessions
     cases = []
-    for hist, keys in sessions:
+    for (hist, keys), tail in zip(sessions, tails):
         entries = [h for h in hist if h.strip() != ""]            # what the file's lines amount to as history entries
-        cases.append(case_line(0, 1, 1, entries, keys + clear + E + [ENTER]))
+        cases.append(case_line(0, 1, 0, entries, keys + tail))
     model = ctx.run_model(cases, tag="c20pty")
     import concurrent.futures
     with concurrent.futures.ThreadPoolExecutor(4) as pool:
-        futs = [pool.submit(pty_session, exe, work, "".join(h + "\n" for h in hist), keys + clear + E + [ENTER], i)
-                for i, (hist, keys) in enumerate(sessions)]
+        futs = [pool.submit(pty_session, exe, work, "".join(h + "\n" for h in hist), keys + tail, i)
+                for i, ((hist, keys), tail) in enumerate(zip(sessions, tails))]
         got = [f.result() for f in futs]
     n = bad = retried = 0
     for si, ((hist, keys), m, (lines, status, tail)) in enumerate(zip(sessions, model, got)):
@@ -469,13 +476,15 @@ def pty_stage(ctx, violations):
             if want is not None and status == 0 and got_entries == want:
                 break
             retried += 1
-            lines, status, tail = pty_session(exe, work, "".join(h + "\n" for h in hist), keys + clear + E + [ENTER], 1000 + si * 10 + int(slow), slow=slow)
+            lines, status, tail = pty_session(exe, work, "".join(h + "\n" for h in hist), keys + tails[si], 1000 + si * 10 + int(slow), slow=slow)
             got_entries = [l for l in lines if l.strip() != ""]
         if want is None or status != 0 or got_entries != want:
             bad += 1
             if bad <= 4:
-                violations.append({"kind": "real-terminal-session", "history_file_lines": hist, "keys": [key_name(k) for k in keys] + ["(clear line)", "exit", "Enter"],
-                                   "exit_status": status, "history_file_after": lines, "model_final_history": want,
+                violations.append({"kind": "real-terminal-session", "history_file_lines": [h if len(h) < 200 else "%r * %d" % (h[0], len(h)) for h in hist],
+                                   "keys": [key_name(k) for k in keys] + ["(clear line)", "exit", "Enter"],
+                                   "exit_status": status, "history_file_after": [l if len(l) < 200 else "%r... (%d characters)" % (l[:20], len(l)) for l in lines],
+                                   "model_final_history": [l if len(l) < 200 else "%r... (%d characters)" % (l[:20], len(l)) for l in (want or [])],
                                    "terminal_tail": tail[-300:]})
     return {"sessions": n, "mismatches": bad, "slow_reruns": retried,
             "rule": "real `lace debug --minimal` on a pseudo-terminal (binary without hooks: crossterm raw mode and key decoding, prompt drawing, history file): history file afterwards = the model's final history, exit status 0; history files with blank lines included"}
